@@ -139,7 +139,53 @@ func solveFunction(fr *FuncResult, opts CheckOpts) {
 			asserts := append([]*Term{}, ex.axioms...)
 			asserts = append(asserts, o.Hyps...)
 			asserts = append(asserts, Not(o.Goal))
-			o.Res = Solve(ex.env.d, asserts, ex.inputs, timeout, opts.All, o.Site+" @"+o.Path)
+			if len(ex.nlAxioms) > 0 {
+				// first without the non-linear lemma axioms (products are then merely uninterpreted)
+				o.Res = solveWith(backends[:1], ex.env.d, asserts, ex.inputs, 3, false, o.Site+" @"+o.Path+" [no-nl]")
+				if o.Res.Status == "sat" {
+					o.Res.Status = "unknown" // a model of the weaker query proves nothing
+				}
+			}
+			if o.Res.Status != "unsat" {
+				asserts = append(append([]*Term{}, ex.nlAxioms...), asserts...)
+				o.Res = Solve(ex.env.d, asserts, ex.inputs, timeout, opts.All, o.Site+" @"+o.Path)
+			}
+			if o.Res.Status != "unsat" && o.Res.Status != "sat" && len(flattenAnd(o.Goal)) > 1 {
+				// conjunct-wise: every conjunct of the goal on its own
+				allOK := true
+				total := o.Res.Time
+				bk := map[string]bool{}
+				for _, cj := range flattenAnd(o.Goal) {
+					as := append([]*Term{}, ex.axioms...)
+					as = append(as, o.Hyps...)
+					as = append(as, Not(cj))
+					r := SolverResult{Status: "unknown"}
+					if len(ex.nlAxioms) > 0 {
+						r = solveWith(backends[:1], ex.env.d, as, nil, 3, false, o.Site+" @"+o.Path+" [conjunct no-nl]")
+					}
+					if r.Status != "unsat" {
+						as = append(append([]*Term{}, ex.nlAxioms...), as...)
+						r = Solve(ex.env.d, as, nil, timeout, false, o.Site+" @"+o.Path+" [conjunct]")
+					}
+					total += r.Time
+					if r.Status != "unsat" {
+						allOK = false
+						if os.Getenv("GOCV_DEBUG") != "" {
+							fmt.Fprintf(os.Stderr, "CONJUNCT-FAIL %s @%s: %s : %s\n", o.Site, o.Path, r.Status, truncate(cj.String(), 700))
+						}
+						break
+					}
+					bk[r.Backend] = true
+				}
+				if allOK {
+					var names []string
+					for b := range bk {
+						names = append(names, b)
+					}
+					sort.Strings(names)
+					o.Res = SolverResult{Status: "unsat", Backend: strings.Join(names, "+") + "/split", Time: total}
+				}
+			}
 		}(o)
 	}
 	// covers: at most two path instances per return site
@@ -509,4 +555,22 @@ func failSetup(prop, verifDir string, opts CheckOpts, msg string, t0 time.Time, 
 		writeJSON(filepath.Join(verifDir, "evidence", prop+".json"), ev)
 	}
 	return 1
+}
+
+func flattenAnd(t *Term) []*Term {
+	if t.Op == "=>" && len(t.Args) == 2 {
+		var out []*Term
+		for _, c := range flattenAnd(t.Args[1]) {
+			out = append(out, Implies(t.Args[0], c))
+		}
+		return out
+	}
+	if t.Op != "and" {
+		return []*Term{t}
+	}
+	var out []*Term
+	for _, a := range t.Args {
+		out = append(out, flattenAnd(a)...)
+	}
+	return out
 }
